@@ -158,6 +158,8 @@ impl WriteStallController {
 			}
 
 			// Wait
+			#[cfg(feature = "verif")]
+			crate::verif::point("stall.before_wait");
 			notified.await;
 		}
 	}
